@@ -15,7 +15,10 @@ of harness/c09_rest.py (exception injected at the k-th invocation of one chosen
 callback; oracle straight from the property text).  The grouping / windowing
 operators are run once more by the ORACLE-ONLY family of harness/c09_selfclose.py
 with durations derived from the group / window itself (they fire while the
-operator is failing its groups), every callback raising at every position."""
+operator is failing its groups), every callback raising at every position.
+harness/c09_held.py (ORACLE-ONLY) runs all callback operators subscribed WITH a
+scheduler that does not run actions at once (hand-stepped / TestScheduler with
+several notifications per tick): the on_error must come in the raising step."""
 import json
 import random
 
@@ -289,9 +292,29 @@ def run(chk):
                         "durations and never()), group subscribers reacting to the group's terminal by disposing, "
                         "several groups / windows open, each user callback raising at each of its invocations (see "
                         "self_closing_durations: its own rule and counts)")
+    # ---- ORACLE-ONLY family: every callback operator (catalogue of c09_rest + timed mappers + observable-returning
+    # mappers + grouping / windowing + plain element-wise ones) subscribed WITH a non-immediate scheduler (a
+    # hand-stepped one that only queues; TestScheduler with several notifications on one tick), further source
+    # notifications arriving before that scheduler runs again: the on_error must be delivered in the raising step
+    import c09_held
+    held_nt = c09_held.run_family(chk)
+    chk.cov["distinct_nontrivial"] += len(held_nt)
+    chk.cov["rule"] += ("; plus the oracle-only family of harness/c09_held.py: every callback operator of the c09_rest "
+                        "catalogue, timeout_with_mapper / delay_with_mapper / throttle_with_mapper, "
+                        "generate_with_relative_time under flat_map, flat_map(_indexed) / switch_map(_indexed) / "
+                        "concat_map / flat_map_latest / catch(handler), group_by(_until) / window_when / buffer_when / "
+                        "window_toggle / buffer_toggle with hot and timer durations, and 16 plain element-wise / "
+                        "aggregate operators, subscribed with subscribe(..., scheduler=s) where s does NOT run actions "
+                        "at once (a hand-stepped scheduler that only queues, stepped by the script; the library's "
+                        "TestScheduler with several source notifications due on the same tick), further notifications "
+                        "pushed before s runs again; the exception must be delivered as on_error in the very step in "
+                        "which the callback raised (see non_immediate_subscribe_scheduler: its own rule and counts)")
     return chk.finish(
         trusted_extra=["raise bookkeeping in harness/k2.py (UserError records the input position at which it was raised)"],
-        assumptions=["timed mappers are exercised with raising callbacks in C15-C17; window/buffer closing selectors "
+        assumptions=["timed mappers are exercised with raising callbacks against their models in C15-C17 and here "
+                     "(oracle only, harness/c09_held.py: non-immediate subscribe-time scheduler); timer, interval, sample, "
+                     "debounce, throttle_first, buffer/window_with_time(_or_count) and the other purely time-"
+                     "parameterised operators take no user callback (nothing to inject); window/buffer closing selectors "
                      "and group_by(_until) selectors are exercised against their models in C18/C19 and here (oracle "
                      "only, self-closing durations: harness/c09_selfclose.py); the first call of the closing mapper of "
                      "window_when / buffer_when happens inside subscribe(), before any notification is processed, and "
@@ -309,6 +332,9 @@ def replay(chk, path):
     if "selfclose_case" in d:
         import c09_selfclose
         return c09_selfclose.replay_case(chk, d, path)
+    if "held_case" in d:
+        import c09_held
+        return c09_held.replay_case(chk, d, path)
     if "cold_case" in d:
         c = d["cold_case"]
         probs, info = cold_case(c["table"], c["operator"], c["source"], c["case_seed"])
